@@ -322,6 +322,8 @@ class C01(Check):
             return {"statement_form": case[1]}
         if case[0] == "meta":
             return {"corpus_program": case[1], "transformation": case[2]}
+        if case[0] == "metaex":
+            return {"example": case[2], "transformation": case[3]}
         return {"variant": case[0], "shape": repr(case[1])}
 
     def run_ident(self, case):
@@ -342,8 +344,45 @@ class C01(Check):
         return {"outcome": "ident-ok" + ("-DIFF" if viol else ""), "viol": viol, "nontrivial": True, "tags": ["ident", f"role-{role}"]}
 
     def meta_cases(self, tier):
-        from ..lang import gencorpus
-        return [("meta", nm, t) for nm in gencorpus.names(tier) for t in TRANSFORMS]
+        from ..lang import gencorpus, corpus
+        ex = [("metaex", top, rel, t) for top, rel in corpus.example_files() for t in TRANSFORMS] if tier == "thorough" else []
+        return [("meta", nm, t) for nm in gencorpus.names(tier) for t in TRANSFORMS] + ex
+
+    def run_metaex(self, case):
+        """the same differential on the repository's own example programs (whole example directory transformed)"""
+        import os
+        from ..lang import corpus, paths
+        _, top, rel, how = case
+        base = driver.fresh_dir()
+        d0, d1 = os.path.join(base, "a"), os.path.join(base, "b")
+        os.makedirs(d0)
+        os.makedirs(d1)
+        cwd0, entry = corpus.stage(d0, top, rel)
+        cwd1, _ = corpus.stage(d1, top, rel)
+        for root, _, fs in os.walk(os.path.join(d1, "ex")):
+            for f in fs:
+                if f.endswith(".ms"):
+                    pth = os.path.join(root, f)
+                    try:
+                        text = open(pth, encoding="utf-8").read()
+                    except (OSError, UnicodeDecodeError):
+                        return {"outcome": "meta-skipped-unreadable", "nontrivial": False}
+                    if not _no_multiline_strings(text) or (how == "comments" and "###" in text):
+                        return {"outcome": "meta-skipped-multiline-string", "nontrivial": False}
+                    with open(pth, "w", encoding="utf-8", newline="") as fh:
+                        fh.write(transform(text, how))
+        r0 = driver.run(["run", entry, "-q"], cwd0, timeout=8)
+        r1 = driver.run(["run", entry, "-q"], cwd1, timeout=8)
+        if r0.timeout or r1.timeout:
+            return {"outcome": "meta-skipped-timeout", "nontrivial": False}
+        viol = []
+        ok0 = r0.exit == 0
+        same = (paths.canon_stdout(r0.out) == paths.canon_stdout(r1.out) and r1.exit == 0) if ok0 else r1.exit != 0
+        if not same:
+            viol.append({"sig": {"kind": "lexical-transformation", "how": how, "generator": "example:" + rel},
+                         "what": f"{rel} after `{how}`: exit {r0.exit} -> {r1.exit}; output {r0.out[-120:]!r} -> {(r1.out + r1.err)[-200:]!r}",
+                         "detail": {"files": {}, "example": rel, "original": r0.brief(), "transformed": r1.brief()}})
+        return {"outcome": "metaex-ok" + ("-DIFF" if viol else ""), "viol": viol, "nontrivial": True, "tags": ["meta", f"meta-{how}"]}
 
     def run_meta(self, case):
         """differential: the program of another generator before and after a transformation that only touches line ends, comments and blanks"""
@@ -385,6 +424,8 @@ class C01(Check):
             return self.run_form(case)
         if case[0] == "meta":
             return self.run_meta(case)
+        if case[0] == "metaex":
+            return self.run_metaex(case)
         if case[0] == "ident":
             return self.run_ident(case)
         variant, shape = case
